@@ -58,7 +58,10 @@ def envelope(ver, body_inner, extra_ns=""):
             % (ENV[ver], extra_ns, body_inner))
 
 
-def fault11(fields, style):
+DETAIL_SHAPES = {"kids": '<d:info xmlns:d="urn:d" level="3">deep<d:x/></d:info>', "text": "backend unavailable", "empty": ""}
+
+
+def fault11(fields, style, dshape="kids"):
     """fields: subset of code/string/actor/detail; style: 'plain' (unqualified children), 'defaultns'
     (children qualified through a default namespace declared on the Fault)"""
     kids = ""
@@ -69,13 +72,13 @@ def fault11(fields, style):
     if "actor" in fields:
         kids += "<faultactor>urn:actor</faultactor>"
     if "detail" in fields:
-        kids += '<detail><d:info xmlns:d="urn:d" level="3">deep<d:x/></d:info></detail>'
+        kids += "<detail>%s</detail>" % DETAIL_SHAPES[dshape]
     if style == "defaultns":
         return '<e:Fault xmlns="urn:faultns">%s</e:Fault>' % kids
     return "<e:Fault>%s</e:Fault>" % kids
 
 
-def fault12(reason, depth, detail, declare):
+def fault12(reason, depth, detail, declare, dshape="kids"):
     """depth: number of nested subcodes; declare: where the subcode prefix is declared ('env', 'value', 'rebind')"""
     sub = ""
     for i in reversed(range(depth)):
@@ -87,7 +90,7 @@ def fault12(reason, depth, detail, declare):
         sub = "<e:Subcode><e:Value%s>s%d:Code%d</e:Value>%s</e:Subcode>" % (ns_decl, i, i, sub)
     code = "<e:Code><e:Value>e:Receiver</e:Value>%s</e:Code>" % sub
     r = '<e:Reason><e:Text xml:lang="en">reason text</e:Text></e:Reason>' if reason else ""
-    d = '<e:Detail><d:info xmlns:d="urn:d">deep</d:info></e:Detail>' if detail else ""
+    d = ("<e:Detail>%s</e:Detail>" % DETAIL_SHAPES[dshape]) if detail else ""
     return "<e:Fault>%s%s%s</e:Fault>" % (code, r, d)
 
 
@@ -100,18 +103,21 @@ def bodies(ver):
         for n in range(5):
             for fields in itertools.combinations(("code", "string", "actor", "detail"), n):
                 for style in ("plain", "defaultns"):
-                    yield ("fault11:%s:%s" % ("+".join(fields) or "none", style), envelope(ver, fault11(fields, style)),
-                           dict(kind="fault", message="it broke & burned" if "string" in fields else None,
-                                code="e:Server" if "code" in fields else None,
-                                actor="urn:actor" if "actor" in fields else None, detail="detail" in fields, subcodes=None))
+                    for dshape in (("kids", "text", "empty") if "detail" in fields else ("kids",)):
+                        yield ("fault11:%s:%s:%s" % ("+".join(fields) or "none", style, dshape), envelope(ver, fault11(fields, style, dshape)),
+                               dict(kind="fault", message="it broke & burned" if "string" in fields else None,
+                                    code="e:Server" if "code" in fields else None,
+                                    actor="urn:actor" if "actor" in fields else None, detail="detail" in fields, subcodes=None))
     else:
-        for reason, depth, detail, declare in itertools.product((True, False), (0, 1, 2, 3), (True, False), ("env", "value", "rebind")):
+        for reason, depth, detail, declare in itertools.product((True, False), (0, 1, 2, 3), (True, False, "text", "empty"), ("env", "value", "rebind")):
             if depth == 0 and declare != "env":
                 continue
+            dshape = detail if isinstance(detail, str) else "kids"
+            detail = bool(detail)
             extra = "".join(' xmlns:s%d="urn:sub%d"' % (i, i) for i in range(3))
             ns = "urn:rebound%d" if declare == "rebind" else "urn:sub%d"
-            yield ("fault12:r%d:d%d:det%d:%s" % (reason, depth, detail, declare),
-                   envelope(ver, fault12(reason, depth, detail, declare), extra),
+            yield ("fault12:r%d:d%d:det%d%s:%s" % (reason, depth, detail, dshape if detail else "", declare),
+                   envelope(ver, fault12(reason, depth, detail, declare, dshape), extra),
                    dict(kind="fault", message="reason text" if reason else None, code="e:Receiver", actor=None, detail=detail,
                         subcodes=["{%s}Code%d" % (ns % i, i) for i in range(depth)]))
     yield "fault-other-version", ('<?xml version="1.0"?><o:Envelope xmlns:o="%s" xmlns:e="%s"><o:Body><o:Fault><faultcode>x</faultcode><faultstring>other</faultstring></o:Fault></o:Body></o:Envelope>' % (ENV[other], ENV[ver])), dict(kind="nofault-tree")
@@ -315,8 +321,8 @@ def run(ctx):
                 agree = spec.get("kind") != "payload"
             if not agree:
                 res.disagreements.append(dict(relation="Soap.triage vs process_reply", case=case, model=m, impl=o))
-    res.sample(dict(version="1.2", status=500, body="fault12:r1:d2:det1:value", content=[c for c in bodies("1.2") if c[0] == "fault12:r1:d2:det1:value"][0][1]))
-    res.sample(dict(version="1.1", status=200, body="fault11:code+string:defaultns", content=[c for c in bodies("1.1") if c[0] == "fault11:code+string:defaultns"][0][1]))
+    res.sample(dict(version="1.2", status=500, body="fault12:r1:d2:det1kids:value", content=[c for c in bodies("1.2") if c[0] == "fault12:r1:d2:det1kids:value"][0][1]))
+    res.sample(dict(version="1.1", status=200, body="fault11:code+string:defaultns:kids", content=[c for c in bodies("1.1") if c[0] == "fault11:code+string:defaultns:kids"][0][1]))
     res.exhaustive = True
     res.programs = len(cells)
     res.rule = ("grid: SOAP 1.1/1.2 x 12 statuses x body classes (payload, 1.1 faults with all 16 subsets of optional fields x 2 namespace "
